@@ -68,6 +68,20 @@ def make_matrix(desc):
     """
     n, cls, cplx = int(desc["n"]), desc["cls"], bool(desc.get("cplx", False))
     rng = sub_rng(0xA11, desc["seed"])
+    if cls == "hindef_posdiag":
+        # Hermitian, same-sign diagonal, yet indefinite: ones-matrix scaled by c>1 off the diagonal + small perturbation.
+        # Eigenvalues ~ 1-c (n-1 times) and 1+(n-1)c: non-singular, condition number O(n).  Cholesky fails *naturally*.
+        c = float(rng.uniform(2.0, 3.0))
+        off = np.full((n, n), c) + 0.1 * rng.uniform(-1, 1, (n, n))
+        if cplx:
+            off = off + 0.1j * rng.uniform(-1, 1, (n, n))
+        off = np.triu(off, 1)
+        A = off + off.conj().T + np.diag(rng.uniform(0.9, 1.1, n))
+        A = A * (float(desc.get("scale", 1.0)) * (-1.0 if desc.get("negdiag") else 1.0))
+        if not cplx:
+            A = np.ascontiguousarray(A.real)
+        sp = desc.get("sparse")
+        return sps.csc_matrix(A) if sp == "csc" else (sps.csr_matrix(A) if sp == "csr" else A)
     symmetric = cls in ("sym", "spd", "herm", "hpd", "csym")
     pat = desc.get("pattern", "full")
     if cls == "diag":
